@@ -522,3 +522,93 @@ func TestC17_RapidTokenizerMaps(t *testing.T) {
 		}
 	})
 }
+
+// Every state object and tokenizer owns its character tables: a registration made on one instance (without
+// clearing it first, the way a caller adds a few characters to the defaults) is invisible to instances created before
+// and after it.
+type c17IsoCase struct {
+	Kind   string `json:"kind"` // word, blank, dispatch
+	Start  rune   `json:"start"`
+	End    rune   `json:"end"`
+	Enable bool   `json:"enable"`
+}
+
+func c17IsoProbe(kind string, obj interface{}, probes []rune) string {
+	var sb strings.Builder
+	for _, ch := range probes {
+		switch kind {
+		case "dispatch":
+			st := obj.(*generic.GenericTokenizer).GetCharacterState(ch)
+			fmt.Fprintf(&sb, "%T;", st)
+		default:
+			// a state reads its first character unconditionally and goes on while the characters are enabled
+			tk := obj.(tokenizers.ITokenizerState).NextToken(rio.NewStringScanner("\x01"+string(ch)), nil)
+			fmt.Fprintf(&sb, "%d;", len([]rune(tk.Value())))
+		}
+	}
+	return sb.String()
+}
+
+func checkC17Iso(c c17IsoCase) *evid.Fail {
+	var res *evid.Fail
+	if g := guard(func() {
+		mk := func() interface{} {
+			switch c.Kind {
+			case "word":
+				return generic.NewGenericWordState()
+			case "blank":
+				return generic.NewGenericWhitespaceState()
+			}
+			return generic.NewGenericTokenizer()
+		}
+		probes := append(c17AllProbes(), '#', 'a', 'z', ' ', '\t', 0xe0, 0x3000, 0x303f, 0x4e2d)
+		before := mk()
+		pristine := c17IsoProbe(c.Kind, before, probes)
+		a := mk()
+		switch c.Kind {
+		case "word":
+			a.(*generic.GenericWordState).SetWordChars(c.Start, c.End, c.Enable)
+		case "blank":
+			a.(*generic.GenericWhitespaceState).SetWhitespaceChars(c.Start, c.End, c.Enable)
+		default:
+			t := a.(*generic.GenericTokenizer)
+			if c.Enable {
+				t.SetCharacterState(c.Start, c.End, t.SymbolState())
+			} else {
+				t.SetCharacterState(c.Start, c.End, nil)
+			}
+		}
+		after := mk()
+		for which, obj := range map[string]interface{}{"created before": before, "created after": after} {
+			if got := c17IsoProbe(c.Kind, obj, probes); got != pristine {
+				res = evid.F("instances-share-table:"+c.Kind, "a registration [%#x..%#x] enable=%v on one %s object changed the answers of an object %s: %s, pristine %s", c.Start, c.End, c.Enable, c.Kind, which, got, pristine)
+				return
+			}
+		}
+	}); g != nil {
+		return g
+	}
+	return res
+}
+
+func init() { regReplay("C17.iso", checkC17Iso) }
+
+func TestC17_EnumInstanceIsolation(t *testing.T) {
+	rec := evid.New("C17", "TestC17_EnumInstanceIsolation", "C17.iso", "one registration (range below, above or across U+0100; enabling or disabling) on one word state / whitespace state / tokenizer without clearing it first; an object created before and one created after must answer every probe character as a pristine object does; non-trivial = all; distinct by (kind, range, enable)")
+	rec.Exhaustive = true
+	rec.DupFree = true
+	defer finish(t, rec)
+	ranges := [][2]rune{{'#', '#'}, {'a', 'z'}, {' ', ' '}, {0, 0x7f}, {0xe0, 0xff}, {0xff, 0x101}, {0x100, 0x100}, {0x101, 0x2000}, {0x3000, 0x303f}, {0, 0xfffe}, {0xfffe, 0xfffe}}
+	rec.Bounds = fmt.Sprintf("3 kinds x %d ranges x {enable, disable}", len(ranges))
+	for _, kind := range []string{"word", "blank", "dispatch"} {
+		for _, r := range ranges {
+			for _, en := range []bool{true, false} {
+				c := c17IsoCase{kind, r[0], r[1], en}
+				rec.Case(jsonStr(c), true, func() interface{} { return c })
+				if f := checkC17Iso(c); f != nil {
+					rec.Fail(f, c)
+				}
+			}
+		}
+	}
+}
